@@ -157,6 +157,25 @@ def run_case(spec, ctx):
             k2 = int(np.argmax(d2))
             ctx.check(d2[k2] <= 8, 'ppf.elementwise', 'C08:order-dependence',
                       lambda: dict(where, size=size, worst_ulps=float(d2[k2])))
+    # the same vectors in other containers: the i-th output belongs to the i-th ELEMENT, whatever the labels ------
+    import pandas as pd
+    m = min(12, len(y))
+    base = _ppf(ctx, model, y[:m].copy(), v[:m].copy(), where, 'ppf.container')
+    if base is not None:
+        lab = rng.permutation(m)
+        forms = {'list': (list(map(float, y[:m])), list(map(float, v[:m]))),
+                 'series-shuffled-index': (pd.Series(y[:m], index=lab), pd.Series(v[:m], index=lab)),
+                 'series-offset-index': (pd.Series(y[:m], index=np.arange(100, 100 + m)), pd.Series(v[:m], index=np.arange(100, 100 + m))),
+                 'series-str-index': (pd.Series(y[:m], index=['r%d' % i for i in range(m)]), pd.Series(v[:m], index=['r%d' % i for i in range(m)])),
+                 'series-and-array': (pd.Series(y[:m], index=lab[::-1]), v[:m].copy())}
+        for name, (cy, cv) in forms.items():
+            okc, rc = ctx.call(model.percent_point, cy, cv)
+            if not okc:
+                ctx.violation('ppf.container', 'C08:%s-input-%s' % (name.split('-')[0], exc_mech(rc)), dict(exc_detail(rc), container=name, **where))
+                continue
+            rc = np.asarray(rc, dtype=float)
+            ctx.check(rc.shape == base.shape and (biv.ulps(rc, base) <= 8).all(), 'ppf.container', 'C08:output-depends-on-container-labels',
+                      lambda: dict(where, container=name, got=rc[:4], as_array=base[:4]))
     al = ctx.call(model.ppf, y[:5], v[:5])
     ctx.check(al[0] and np.array_equal(np.asarray(al[1]), np.asarray(model.percent_point(y[:5], v[:5])),
                                        equal_nan=True), 'ppf.alias', 'C08:alias-differs', where)
